@@ -54,7 +54,7 @@ def fill_values(s, N):
     for p in s.params:
         if p.value is not None:
             continue
-        ncol = N if p.grid == 'control' else N + 1
+        ncol = (N if p.grid == 'control' else N + 1) * p.cols
         base = {'pc': 20, 'pp': 30, 'vec': 50}.get(p.name, 70)
         p.value = [[Fr(base + 10 * r + k, 8) + Fr(r) for k in range(ncol)] for r in range(p.rows)]
     return s
@@ -126,6 +126,13 @@ def instances(tier, seed):
             sp = fam.with_horizon(fill_values(pmodel(), 2), H[5])
             sp.initial = [(X(0), t * 2 + 1), (X(1), Pg('a') * 3), (U(0), t * Pg('a'))]
             add(kind='order', spec=sp, cfg=Cfg(method, N=2, M=1, intg='rk', grid=g, degree=2, scheme='radau'), order=order)
+    # a MATRIX-valued per-interval parameter (one 2x2 block per interval) updated after the transcription
+    for oi, order in enumerate([['T', 'mc2'], ['mc2', 'T'], ['T', 'mc2', 'a2', 'T2', 'mc0']]):
+        for method in ('MS', 'DC'):
+            sp = pmodel()
+            sp.params = list(sp.params) + [Sym('mc', 'control', rows=2, cols=2, value=None)]
+            sp.cons = list(sp.cons) + [Con('<=', X(0) * Pg('mc', 1) + Pg('mc', 2), Pg('mc', 0) + Pg('mc', 3) + 900)]
+            add(kind='order', spec=fam.with_horizon(fill_values(sp, 3), H[0]), cfg=Cfg(method, N=3, M=1, intg='rk', grid=fam.G_UNI, degree=2, scheme='radau'), order=order)
     # a PARAMETRIC horizon on a grid with localized time variables and no expression guess at all: the guesses of the local time variables follow the value
     for oi, order in enumerate([['T', 'pT2'], ['pT2', 'T'], ['T', 'pT2', 'a2', 'T2']]):
         for method, g in (('MS', fam.G_UNI_LT), ('DC', fam.G_FREE), ('SS', fam.G_UNI_LT0), ('MS', fam.G_GEO_LOC_LT)):
@@ -192,10 +199,11 @@ def flat_value(p, cfg):
             for r in range(p.rows):
                 out[(None, c * p.rows + r)] = Fr(v[r][c])
         return out
-    ncol = len(v[0])
+    ncol = len(v[0]) // p.cols       # one block of p.cols columns per interval / node
     for k in range(ncol):
-        for r in range(p.rows):
-            out[(k, r)] = Fr(v[r][k])
+        for c in range(p.cols):
+            for r in range(p.rows):
+                out[(k, c * p.rows + r)] = Fr(v[r][k * p.cols + c])
     return out
 
 
@@ -228,6 +236,7 @@ def run_order(item):
         'vec2': ('vec', [[Fr(300 + k) for k in range(N)], [Fr(400 + k) for k in range(N)]]),
     }
     newvals['pT2'] = ('pT', Fr(5, 2))
+    newvals['mc2'] = ('mc', [[Fr(500 + 10 * r_ + k) for k in range(2 * N)] for r_ in range(2)])
     for p_ in spec.params:          # '<name>0' = set the parameter back to its originally declared value
         newvals[p_.name + '0'] = (p_.name, copy.deepcopy(p_.value))
     s_cur = copy.deepcopy(spec)
